@@ -863,36 +863,9 @@ def check_once_in_order(lines, ff):
     return errs
 
 
-CORPUS_FF = [
-    # F-C13-1: a link followed by other sections must be loaded once
-    ("f-c13-1", "[ link ]\n[ bonds ]\nA +A 1\n[ link ]\n[ bonds ]\nB +B 1\n[ moleculetype ]\nX 1\n[ atoms ]\n1 P1 1 X A 1 0\n"
-     "2 P1 1 X B 1 0\n[ link ]\n[ bonds ]\nC +C 1\n[ macros ]\nfoo bar\n[ link ]\n[ bonds ]\nD +D 1 $foo\n", 4),
-    # F-C13-2: an unknown header-only section must not swallow the link before it
-    ("f-c13-2a", "[ link ]\n[ bonds ]\nA +A 1\n[ foo ]\n[ link ]\n[ bonds ]\nB +B 1\n", 2),
-    ("f-c13-2b", "[ link ]\n[ bonds ]\nA +A 1\n[ foo ]\n", 1),
-    ("empty-links", "[ link ]\n[ link ]\n[ link ]\n[ bonds ]\nA B 1\n", 3),
-    ("same-block-twice", "[ moleculetype ]\nX 1\n[ atoms ]\n1 P 1 X A 1\n[ moleculetype ]\nY 1\n[ atoms ]\n1 P 1 Y A 1\n"
-     "[ moleculetype ]\nX 2\n[ atoms ]\n1 P 1 X B 1\n2 P 1 X C 1\n[ bonds ]\nB C 1\n", 0),
-    ("prefix-vs-order", "[ link ]\n[ bonds ]\n+BB BB 1\nBB {\"order\": 1} BB 2\n++BB {\"order\": 2} >BB 3\n"
-     "[ angles ]\nBB +BB{\"order\": 1} BB{\"order\": \">\"} 1\n", 1),
-    ("variables-late", "[ link ]\n[ bonds ]\nA B 1\n[ variables ]\nx 1\n", None),
-    ("macro-undefined", "[ link ]\n[ bonds ]\nA B $nope\n", None),
-]
-
-QUIRKS_FF = [
-    ("F-C13-3", "[ moleculetype ]\nX 1\n[ atoms ]\n1 P1 1 X A 1 0\n2 P1 1 X B 1 0\n[ link ]\n[ pairs_nb ]\nA B 1\n",
-     'a [ pairs_nb ] section of a link is written into the previous block (context_type="block" in the table)'),
-    ("F-C13-4", "[ moleculetype ]\nX 1\n[ atoms ]\n1 P1 1 X A 1 0\n2 P1 1 X B 1 0\n[ bonds ]\n0 1 1\n",
-     'atom index 0 in a block interaction silently refers to the last atom'),
-    ("F-C13-5", "[ moleculetype ]\nX 1\n[ atoms ]\n1 P1 1 X A 1 0\n2 P1 1 X B 1 0\n[ edges ]\nA Q\n",
-     'an [ edges ] line of a block that names an undefined atom creates that atom'),
-    ("F-C13-7", "[ link ]\n[ bonds ]\nA B C -- 1\n",
-     'three atoms before "--" in a 2-atom interaction are accepted (C and -- become parameters)'),
-    ("F-C13-9", "[ link ]\n[ bonds ]\nA B 1\n[ atoms ]\nA {\"atype\": \"P1\"}\n",
-     'an [ atoms ] line for an atom already created by an interaction raises TypeError (NodeView item assignment)'),
-    ("F-C13-8", "[ link ]\n[ !dihedrals ]\nA B C D -- 1\n",
-     '[ !dihedrals ] does not register a removal: the line becomes an interaction named "!dihedrals"'),
-]
+_CORPUS = json.load(open(os.path.join(VERIF, 'corpus', 'c13_cases.json')))
+CORPUS_FF = [tuple(x) for x in _CORPUS['ff']]
+QUIRKS_FF = [tuple(x) for x in _CORPUS['quirks']]
 
 
 def run_ff():
